@@ -322,6 +322,8 @@ def r09c(repo: Repo, chk: Check):
         class _Elem(ast.NodeTransformer):
             def visit_Name(self, nm):
                 return _clone(elem[nm.id]) if nm.id in elem and isinstance(nm.ctx, ast.Load) else nm
+        if elem:
+            target = _Elem().visit(_clone(target))
         want = {f"len({norm(target)})": 1, f"len({norm(note)})": 1}
         best = None
         for test, pol in cfg.guards(n.id):
